@@ -16,12 +16,12 @@ from ..storage import Storage, make_ths
 
 RULE = {
     'C02': 'seeded (class x direction, N per container, batch rule int/MB/table, frame kind incl. unsorted / negative index lists, preprocess chain (list or single callable), word selection incl. permutations and repeats, '
-           'precision, convergence step for 30 % of the attacks, constant metadata byte, wide class values with the Value model, MIA with wide fractional samples and integer counter precision, 1-3 run() calls); '
+           'precision, convergence step for 30 % of the attacks, constant metadata byte, wide class values with the Value model, MIA with wide fractional samples and integer counter precision, repeated / same-named preprocesses, 32/64-bit integer samples above 2^24, a Container run twice or shared with another analysis, 1-3 run() calls each with its own storage dtype); '
            'non-trivial when more than one batch reached update(); distinct = distinct (class, direction, batch-length sequence, frame kind, chain, rule kind)',
     'C08': 'seeded C02 scenarios for attacks with convergence_step in {1, <b, =b, >b, not dividing N, >N}; non-trivial when >= 2 convergence columns; '
            'distinct = distinct (class, step, batch-length sequence, columns per run)',
     'C14': 'seeded template lifecycles: (attack kind, class list incl. shifted/permuted/gapped/automatic, trace length 1..6, precision, building/matching sizes, '
-           'batch rules for both phases, 1-3 matching runs, run-before-build probe); distinct = distinct (kind, class list, L, precision, build batches, match batches)',
+           'batch rules for both phases, 1-3 matching runs, run-before-build probe, empty / single-trace classes, 9-256 classes, an identically zero sample, common-mode noise with cond up to 1e9, guesses != classes, hypothesis dtype of its own, build fault + sibling object, second build()); distinct = distinct (kind, class list, L, precision, build batches, match batches)',
     'C16': 'run-level: a run() over fake storage with one injected fault (storage error on metadata/samples of batch k, preprocess or selection function raising on batch k, preprocess returning a shorter trace / '
            'selection function returning an extra word on batch k >= 1 so that update() itself refuses); afterwards compute_results() and a run over the remaining rows are compared with one-shot twins, and with a '
            'convergence step the convergence trace with a calibrated accepted-only twin',
